@@ -39,7 +39,8 @@ Inductive intf :=
 | ILocal (o : N)        (* Automatic/Argument/Static/... interface object *)
 | IImport (c : N).      (* ImportInterface(container symbol c) *)
 
-Record sym := { sname : N; styped : bool; sdt : N; sinit : option node; sintf : intf }.
+Record sym := { sname : N; styped : bool; sdt : N; sinit : option node; sintf : intf; smem : list N }.
+(* smem = the member RoutineSymbols of a GenericInterfaceSymbol (`routines`), [] for other symbols *)
 (* styped = the class overrides copy() and passes `self.datatype` / `self.interface` on
    (TypedSymbol, DataSymbol, DataTypeSymbol, RoutineSymbol); false = Symbol / ContainerSymbol,
    whose copy() calls interface.copy(). *)
@@ -118,7 +119,11 @@ Definition copied_sym (h : N -> sym) (off ooff : N) (t' : table) (y : sym) : sym
                              | Some c' => IImport c'
                              | None => IImport c
                              end
-              end |}.
+              end;
+     (* deep_copy, last pass: `new_st.lookup(routine.symbol.name)` for every member, AFTER all symbols
+        have been added to the new table *)
+     smem := map (fun m => match lookup (norm (sname (h m))) t' with Some m' => m' | None => m end)
+                 (smem y) |}.
 
 (* the re-binding loop of ScopingNode._refine_copy, for one scope (old table t, new table t');
    `h` gives `node.symbol.name` of the OLD symbol. *)
@@ -166,7 +171,10 @@ Definition copy_raises (h : N -> sym) (n : node) : bool :=
                     | IImport c => match lookup (norm (sname (h c))) (deep_copy_table h 0 (snd p)) with
                                    | Some _ => false | None => true end
                     | ILocal _ => false
-                    end) (owned_tabs n).
+                    end
+                    || existsb (fun m => match lookup (norm (sname (h m))) (deep_copy_table h 0 (snd p)) with
+                                         | Some _ => false | None => true end) (smem (h (fst p))))
+          (owned_tabs n).
 
 (* --------------------------------------------------------- written form *)
 (* id-free token stream: node ids and symbol ids never appear, symbols appear by NAME *)
@@ -189,10 +197,12 @@ Definition wintf (W : world) (i : intf) : list N :=
 Definition winit (W : world) (e : option node) : list N :=
   match e with None => [21] | Some e => 22 :: wexpr (hs W) e end.
 
+Definition wmem (W : world) (l : list N) : list N := 23 :: map (fun m => sname (hs W m)) l.
+
 Definition wdecl (W : world) (e : N * N) : list N :=
   let y := hs W (snd e) in
   [20; fst e; sname y; if styped y then 1 else 0]
-    ++ wobj W (sdt y) ++ winit W (sinit y) ++ wintf W (sintf y).
+    ++ wobj W (sdt y) ++ winit W (sinit y) ++ wintf W (sintf y) ++ wmem W (smem y).
 
 Definition wtab (W : world) (tab : option table) : list N :=
   match tab with None => [30] | Some t => 31 :: flat_map (wdecl W) t ++ [32] end.
@@ -222,7 +232,7 @@ Definition attr_syms (W : world) (s : N) : list N :=
 
 Definition sym_sup (W : world) (s : N) : list N :=
   let y := hs W s in
-  s :: obj_syms W (sdt y) ++ init_syms (sinit y) ++ intf_syms W (sintf y).
+  s :: obj_syms W (sdt y) ++ init_syms (sinit y) ++ intf_syms W (sintf y) ++ smem y.
 Definition sym_objs (W : world) (s : N) : list N :=
   let y := hs W s in sdt y :: intf_objs (sintf y).
 
@@ -244,11 +254,12 @@ Record state := { sw : world; sa : node; sb : node }.
 Definition upd {A} (f : N -> A) (k : N) (v : A) : N -> A := fun x => if x =? k then v else f x.
 
 Definition set_name (y : sym) (nm : N) : sym :=
-  {| sname := nm; styped := styped y; sdt := sdt y; sinit := sinit y; sintf := sintf y |}.
+  {| sname := nm; styped := styped y; sdt := sdt y; sinit := sinit y; sintf := sintf y; smem := smem y |}.
 
-(* SymbolTable.rename_symbol: the key of s changes in every table that holds s *)
+(* SymbolTable.rename_symbol (remove + add): in every table that holds s the entry of s is deleted
+   and re-inserted AT THE END under the new key *)
 Definition rename_tab (s nm : N) (t : table) : table :=
-  map (fun e => if snd e =? s then (norm nm, s) else e) t.
+  if memN s (syms t) then filter (fun e => negb (snd e =? s)) t ++ [(norm nm, s)] else t.
 Fixpoint rename_tree (s nm : N) (n : node) : node :=
   match n with
   | Node i tag sl tab ch =>
@@ -339,12 +350,13 @@ Definition intf_eqb (a b : intf) : bool :=
   end.
 Definition sym_eqb (a b : sym) : bool :=
   (sname a =? sname b) && Bool.eqb (styped a) (styped b) && (sdt a =? sdt b)
-  && opt_eqb node_eqb (sinit a) (sinit b) && intf_eqb (sintf a) (sintf b).
+  && opt_eqb node_eqb (sinit a) (sinit b) && intf_eqb (sintf a) (sintf b)
+  && list_eqb N.eqb (smem a) (smem b).
 Definition aobj_eqb (a b : aobj) : bool :=
   list_eqb node_eqb (obounds a) (obounds b) && list_eqb N.eqb (osyms a) (osyms b)
   && (opay a =? opay b).
 
-Definition dsym : sym := {| sname := 0; styped := false; sdt := 0; sinit := None; sintf := ILocal 0 |}.
+Definition dsym : sym := {| sname := 0; styped := false; sdt := 0; sinit := None; sintf := ILocal 0; smem := [] |}.
 Definition dobj : aobj := {| obounds := []; osyms := []; opay := 0 |}.
 Definition heap_of {A} (d : A) (l : list (N * A)) : N -> A :=
   fun x => match find (fun p => fst p =? x) l with Some p => snd p | None => d end.
@@ -363,7 +375,8 @@ Fixpoint nodupb (l : list N) : bool :=
 Definition tab_wf_b (h : N -> sym) (t : table) : bool :=
   nodupb (keys t) && forallb (fun e => fst e =? norm (sname (h (snd e)))) t.
 Definition imports_local_b (h : N -> sym) (t : table) : bool :=
-  forallb (fun s => match sintf (h s) with IImport c => memN c (syms t) | ILocal _ => true end) (syms t).
+  forallb (fun s => match sintf (h s) with IImport c => memN c (syms t) | ILocal _ => true end
+                    && forallb (fun m => memN m (syms t)) (smem (h s))) (syms t).
 Definition wf_b (W : world) (off soff ooff : N) (n : node) : bool :=
   forallb (tab_wf_b (hs W)) (tables n) && forallb (imports_local_b (hs W)) (tables n)
   && nodupb (owned n)
@@ -460,7 +473,8 @@ Section Refines.
     end.
   Definition symrec_ok (m o : sym) : bool :=
     (sname m =? sname o) && Bool.eqb (styped m) (styped o) && obj_ok (sdt m) (sdt o)
-    && opt_eqb node_ok (sinit m) (sinit o) && intf_ok (sintf m) (sintf o).
+    && opt_eqb node_ok (sinit m) (sinit o) && intf_ok (sintf m) (sintf o)
+    && list_eqb sym_ok (smem m) (smem o).
 End Refines.
 
 Definition refines (c : case) : bool :=
